@@ -93,6 +93,26 @@ fn case(input: &str, via: Via, tracking: bool, rep: &mut Report) -> bool {
     if c.as_ref() as &str != want || raw_ptr(&c) == p || !(c == s) {
         bad!("C14:clone", "clone is not an independent buffer with equal content");
     }
+    // clone_from: whatever the destination held before, afterwards it owns a well-formed buffer with the source's text
+    for prev in ["", "x", "a much longer previous value \u{e9}\u{20ac}"] {
+        let mut dst = ReprCString::from(prev);
+        dst.clone_from(&s);
+        let dp = raw_ptr(&dst);
+        if dst.as_ref() as &str != want || dp == p || unsafe { *dp.add(want.len()) } != 0 {
+            bad!("C14:clone", format!("clone_from over {:?} does not read back the source", prev));
+        }
+        if tracking {
+            match alloc::lookup(dp as usize) {
+                Some((sz, _)) if sz == want.len() + 1 => {}
+                other => bad!("C14:buffer-size", format!("after clone_from over {:?} the buffer block is {:?}, text needs {}", prev, other, want.len() + 1)),
+            }
+        }
+        let nv = alloc::violation_count();
+        drop(dst);
+        if tracking && alloc::violation_count() != nv {
+            bad!("C14:free-layout", format!("buffer written by clone_from over {:?} freed with another size than it was allocated with", prev));
+        }
+    }
     // Borrow<ReprCStr>
     {
         use std::borrow::Borrow;
